@@ -16,7 +16,7 @@ import (
 	ml "github.com/hashicorp/memberlist"
 )
 
-var c20Ops = []string{"join", "members", "localnode", "update", "leave", "shutdown", "sendbe", "sendrel", "ping", "tick", "reap", "peercrash", "accuse", "queries"}
+var c20Ops = []string{"join", "members", "localnode", "update", "leave", "shutdown", "sendbe", "sendrel", "ping", "tick", "reap", "peercrash", "accuse", "queries", "slowsync"}
 
 type c20Replay struct {
 	Ops []string `json:"ops"`
@@ -186,6 +186,17 @@ func runC20Seq(t *testing.T, ops []string) (sig, msg string) {
 					w.peerDown = true
 					_ = w.peer.M.Shutdown()
 					w.peer.T.OnSend = func(sentPkt) {}
+				}
+			case "slowsync":
+				// environment: the peer starts a state exchange and this node's application takes 3 s to
+				// produce its user state; whatever is called next must not have to wait for that
+				if !w.peerDown && !w.shutdown {
+					a.D.mu.Lock()
+					a.D.LocalDelay = 3 * time.Second
+					a.D.mu.Unlock()
+					go func() { _ = w.peer.M.VPushPullNode(string(a.Addr), a.Name, false) }()
+					time.Sleep(10 * time.Millisecond)
+					settle()
 				}
 			case "accuse":
 				s := a.M.VSnapshot()
